@@ -18,8 +18,8 @@ def replay_flow(rep, module, cases, *, k=1, env=None, timeout=900, nontrivial=No
     verdicts = [r for r in rows if "ok" in r]
     if len(verdicts) < len(cases):
         raise vlib.ToolError("%s: harness returned %d verdicts for %d cases" % (module, len(verdicts), len(cases)))
-    for r in verdicts:
-        if not r["ok"]:
+    for r in rows:
+        if ("ok" in r and not r["ok"]) or r.get("extra"):
             rep.mismatch(r["key"], r["detail"])
     rep.cov["traces_validated_against_impl"] += len(verdicts)
     rep.cov["evaluations"] += len(verdicts)
